@@ -35,7 +35,16 @@ func FastParams() {
 // OwnerContractInit is init code that deploys the one-byte runtime STOP; junk after it grinds the create address.
 var ownerContractInit = []byte{0x60, 0x01, 0x60, 0x0c, 0x60, 0x00, 0x39, 0x60, 0x01, 0x60, 0x00, 0xf3, 0x00}
 
+// slotContractInit deploys a contract that records what it READS and then writes its argument:
+//   slot1 := SLOAD(0); slot0 := calldata[0:32]
+// A state read that is served from a stale cache (snapshot layer, warm object) instead of the committed trie changes slot1,
+// hence the state root: nodes with different cache histories then disagree about the same block.
+var slotContractInit = []byte{0x60, 0x0d, 0x60, 0x0c, 0x60, 0x00, 0x39, 0x60, 0x0d, 0x60, 0x00, 0xf3,
+	0x60, 0x00, 0x54, 0x60, 0x01, 0x55, 0x60, 0x00, 0x35, 0x60, 0x00, 0x55, 0x00}
+
 type Env struct {
+	SlotInit     []byte          // init code of the storage contract (always deployed during warm-up by Quai[1], nonce 0)
+	SlotContract *common.Address // its pre-computed address
 	Net     *mininet.Net
 	Signer  types.Signer
 	ChainID *big.Int
@@ -89,6 +98,14 @@ func Boot(o EnvOptions) (*Env, error) {
 		}
 		o.Net.LockupContract = e.OwnerContract
 	}
+	for salt := 0; ; salt++ {
+		code := append(append([]byte{}, slotContractInit...), byte(salt>>16), byte(salt>>8), byte(salt))
+		a := crypto.CreateAddress(e.Quai[1].Addr, 0, code, mininet.ZoneLoc)
+		if _, err := a.InternalAndQuaiAddress(); err == nil {
+			e.SlotInit, e.SlotContract = code, &a
+			break
+		}
+	}
 	if (o.Net.QuaiCoinbase == common.Address{}) {
 		o.Net.QuaiCoinbase = e.Quai[0].Addr
 	}
@@ -129,6 +146,9 @@ func (e *Env) Spendable(k wallet.Key) ([]Utxo, error) {
 func (e *Env) AddTx(tx *types.Transaction) error {
 	pool := e.Net.ZoneCore().TxPool()
 	var err error
+	if tx.Type() == types.QuaiTxType {
+		e.waitPoolAtHead(tx)
+	}
 	if tx.Type() == types.QiTxType {
 		errs := pool.AddRemotesSync([]*types.Transaction{tx})
 		err = errs[0]
@@ -159,6 +179,35 @@ func (e *Env) AddTx(tx *types.Transaction) error {
 		time.Sleep(time.Millisecond)
 	}
 	return errors.New("transaction accepted by the pool but never became pending")
+}
+
+// waitPoolAtHead: the pool follows the chain head asynchronously (its reorg loop resets pool.currentState some time after
+// the head event); a transaction validated against the previous head's state is refused for reasons that have nothing to
+// do with the scenario (balance not yet credited, nonce already used).  Wait until the pool's view of the sender equals
+// the head state (bounded; on timeout the transaction is offered anyway).
+func (e *Env) waitPoolAtHead(tx *types.Transaction) {
+	from, err := types.Sender(e.Signer, tx)
+	if err != nil {
+		return
+	}
+	ia, err := from.InternalAddress()
+	if err != nil {
+		return
+	}
+	pool := e.Net.ZoneCore().TxPool()
+	deadline := time.Now().Add(5 * time.Second)
+	for time.Now().Before(deadline) {
+		st, err := e.Net.ZoneCore().Processor().State()
+		if err != nil {
+			return
+		}
+		snap := pool.VerifSnapshot(ia)
+		pb, ok := snap.StateBalances[ia]
+		if ok && pb != nil && pb.Cmp(st.GetBalance(ia)) == 0 && snap.StateNonces[ia] == st.GetNonce(ia) {
+			return
+		}
+		time.Sleep(2 * time.Millisecond)
+	}
 }
 
 func (e *Env) NextNonce(k wallet.Key) uint64 {
